@@ -133,4 +133,31 @@ Section BC.
   Definition penalize_matrix (M : mat) (D : list nat) (w : R) : mat := msetdiag M (vset_const (mdiag M) D w).
   Definition penalize_rhs (b x : vec) (D : list nat) (w : R) : vec :=
     vset b D (map (fun v => rmul o v w) (vsel x D)).
+
+  (* ---- the whole calls, with the defaults of _init_bc (x None -> zeros; b None and x given -> zeros_like(x))
+          and the shape of the return value; exercised by the correspondence only *)
+  Definition bc_defaults (n : nat) (b x : option vec) : option vec * vec :=
+    match x with
+    | None => (b, repeat (r0 o) n)
+    | Some x' => (match b with None => Some (map (fun _ => r0 o) x') | Some _ => b end, x')
+    end.
+  Definition enforce_call (A : csr R) (b x : option vec) (I D : option (list nat)) (diag : R)
+    : option (mat * option vec) :=
+    let bx := bc_defaults (csr_nrows A) b x in
+    bind (init_bc (csr_nrows A) I D) (fun ID =>
+    bind (enforce_matrix A (snd ID) diag) (fun A' =>
+    Some (A', match fst bx with None => None | Some b' => Some (enforce_rhs b' (snd bx) (snd ID)) end))).
+  Definition condense_call (A : mat) (b x : option vec) (I D : option (list nat))
+    : option (mat * option vec * vec * list nat) :=
+    let bx := bc_defaults (length A) b x in
+    bind (init_bc (length A) I D) (fun ID =>
+    Some (condense_A A (fst ID),
+          match fst bx with None => None | Some b' => Some (condense_b A b' (snd bx) (fst ID) (snd ID)) end,
+          snd bx, fst ID)).
+  Definition penalize_call (M : mat) (b x : option vec) (I D : option (list nat)) (w : R)
+    : option (mat * option vec) :=
+    let bx := bc_defaults (length M) b x in
+    bind (init_bc (length M) I D) (fun ID =>
+    Some (penalize_matrix M (snd ID) w,
+          match fst bx with None => None | Some b' => Some (penalize_rhs b' (snd bx) (snd ID) w) end)).
 End BC.
